@@ -95,6 +95,22 @@ func (s *Stack) Pop() *Scanner {
 	return e
 }
 
+// Holds tells if a file with this name is one of the files whose scanning is
+// suspended by an INCLUDE.
+func (s *Stack) Holds(name string) bool {
+	_, ok := s.uniqueFiles[name]
+	return ok
+}
+
+// TopAt returns the position of the INCLUDE which has led to the file that is
+// scanned now.
+func (s *Stack) TopAt() bytes.Index {
+	if len(s.stack) == 0 {
+		return 0
+	}
+	return s.stack[len(s.stack)-1].at
+}
+
 // Bottom returns the scanner which was pushed first, nil for an empty stack.
 func (s *Stack) Bottom() *Scanner {
 	if len(s.stack) == 0 {
